@@ -519,7 +519,7 @@ func C16Own(in *Info) (vs []V) {
 
 func C18(in *Info) (vs []V, antecedent bool) {
 	ex := in.Ex
-	if !in.ReqCC.Has("only-if-cached") || ex.Spec.Method != "" && ex.Spec.Method != "GET" {
+	if !in.ReqCC.Has("only-if-cached") || SpecMethod(ex.Spec) != "GET" {
 		return nil, false
 	}
 	if http.Header(ex.Spec.Header).Get("Range") != "" {
